@@ -1341,7 +1341,7 @@ namespace jsoncons {
         }
 
         void uninitialized_move_a(std::false_type /* stateful allocator */, 
-            basic_json&& other, const Allocator& alloc) noexcept
+            basic_json&& other, const Allocator& alloc)
         {
             if (is_trivial_storage(other.storage_kind()))
             {
@@ -2317,7 +2317,7 @@ namespace jsoncons {
         }
 
         template <typename U = Allocator>
-        basic_json(basic_json&& other, const Allocator& alloc) noexcept
+        basic_json(basic_json&& other, const Allocator& alloc) // copies, hence allocates, when the allocators are not equal
         {
             uninitialized_move_a(typename std::allocator_traits<U>::is_always_equal(), std::move(other), alloc);
         }
